@@ -3,8 +3,10 @@
 Correspondence between Model/C06_Opt.v and
   SortingSubsetOptimizationAlgorithm, SteepestDescentSubsetHillClimber, SortingSteepestDescentSubsetHillClimber
   (complete evalfn call sequence + returned Solution), pymoo_addon.SubsetRandomSampling / ReducedExchangeCrossover /
-  ReducedExchangeMutation / IntegerSimulatedBinaryCrossover / IntegerPolynomialMutation (scripted numpy.random),
-plus a result monitor (Python predicate and the same monitor evaluated in Coq) on every run of all fifteen
+  ReducedExchangeMutation / IntegerSimulatedBinaryCrossover / IntegerPolynomialMutation / MutatorA.hillclimb /
+  MutatorB.hillclimb (scripted numpy.random; for the hill-climb steps also the evalfn call sequence, the non-dominated
+  front and the row selection),
+plus a result monitor (Python predicate and the same monitor evaluated in Coq) on every run of all thirteen
 pymoo-based optimiser classes."""
 import itertools, random
 from fractions import Fraction
@@ -20,23 +22,30 @@ LEVEL_TEXT = ("Coq theorems, for every evaluation function, candidate set, subse
               "separable; both hill climbers preserve feasibility and the multiset solution+pool, report the evaluation of the returned "
               "decision, terminate within n^k rounds and stop only where no single exchange lowers (violation, score) lexicographically; "
               "SubsetRandomSampling, ReducedExchangeCrossover and ReducedExchangeMutation map feasible subsets to feasible subsets for all "
-              "index draws; integer rounding keeps values inside integer bounds; the MutatorA/B hill-climb step is refuted as coded and "
-              "proved under the guard nhcstep <= number of unused candidates. The model is tied to the code by evaluating it inside Coq "
+              "index draws; integer rounding keeps values inside integer bounds; the (repaired) MutatorA/B hill-climb step returns a feasible "
+              "subset for all loci draws, all in-range allele draws (repeated or not, any nhcstep), every evaluation function and every "
+              "selected row, returns the individual unchanged when the subset is the whole candidate set, and its row selection is always "
+              "defined (front non-empty, selected position inside the front); the former whole-column assignment is kept as old_mutAB_hillclimb "
+              "with its refutation as a regression witness. The model is tied to the code by evaluating it inside Coq "
               "against the implementation's complete evalfn call sequence, scripted operator draws and outputs. For the pymoo-driven "
               "optimisers the theorem part is the operators (and that the optimiser is configured with them); every run is additionally "
               "validated by a result monitor, in Python and in Coq (feasibility, bounds, dtype, reported values == fresh evaluation, mutual "
-              "non-domination, problem unchanged)")
+              "non-domination, problem unchanged), including problems without any feasible decision (the least-violating member is returned), "
+              "subsets equal to the whole candidate set and problems constructed with elementwise=False")
 LEVEL_NOTE = ("trusted: Coq kernel + vm_compute; pymoo's evolutionary loop, survival and result extraction (validated at run time only); "
               "numpy.random.choice(replace=False) returning distinct positions; numpy fancy-index assignment semantics (last write wins); "
-              "numpy float arithmetic on small integers being exact; numpy argsort tie order is not relied upon (keys are compared); the "
+              "numpy float arithmetic on small integers being exact; numpy argsort tie order is not relied upon (keys are compared); "
+              "pymoo NonDominatedSorting returning the first front in ascending position order and numpy.argmin returning the first minimum "
+              "(both mirrored by the model and compared on every op_hcAB case); the "
               "other memetic mutations (steepest/stochastic descent) are covered by the run-time monitor only; theorems are about the "
               "Gallina model, the tie to the code is differential on generated inputs")
 TECHNIQUE = "Coq proof over an executable model; in-Coq vm_compute correspondence (call traces, scripted draws); run-time result monitor"
 RULE = ("case = (kind, problem, draws): kinds sort|sd|ssd (integer table problems: linear + pair-interaction objective, clipped/raw "
         "inequality and equality constraints, candidate sets of 1..10 (a few 11..16) elements incl. k=1, k=n, tied keys; sd with scripted "
         "or seeded start), op_sample|op_cx|op_mut|op_round|op_hcAB (operators with numpy.random replaced by a recording script that honours "
-        "the arguments passed and is biased to boundaries/repeats), ga (all 15 pymoo-based classes, ngen 1..6, pop 1..12, with/without "
-        "constraints, certainly infeasible problems, k=n); generated from one PRNG; non-trivial = climber makes at least one exchange / "
+        "the arguments passed and is biased to boundaries/repeats; op_hcAB: 1..3 objectives, tied objective values, k=n, nhcstep up to 2k+1 "
+        "so that allele draws wrap around), ga (all 13 pymoo-based classes, ngen 1..6, pop 1..12, with/without "
+        "constraints, certainly infeasible problems for every class, k=n incl. every individual hill-climbed, elementwise=False); generated from one PRNG; non-trivial = climber makes at least one exchange / "
         "crossover exchanges at least one element / sorting or GA has k<n (or a non-degenerate box) / rounding has a fractional input / "
         "hill-climb step changes the chromosome; distinct by SHA-256 of the case")
 TRUSTED = ["pymoo 0.6.2 GA/NSGA2/NSGA3 loops and Result extraction (not modelled; every run is checked by the result monitor)",
@@ -163,9 +172,10 @@ def gen_cases(rng, tier):
             base = rng.randint(-6, 6)
             vals.append(base + rng.choice([0.0, 0.5, 0.5, -0.5, 0.25, 0.75, 0.49999999999999994, 0.5000000000000001, rng.randint(-64, 64) / 64.0]))
         cases.append({"kind": "op_round", "which": which, "shape": shape, "vals": vals, "dtype": rng.choice(["int64", "int64", "int32"])})
-    for i in range(80 if q else 600):
-        n = rng.randint(2, 9); k = rng.randint(1, n - 1)
-        p = _tprob(rng, n=n, k=k, nobj=2, nineq=0, neq=0, symmetric=True)
+    for i in range(100 if q else 800):
+        # k = n (nothing to exchange) and nhcstep > n - k (allele draws wrap around) are ordinary inputs
+        n = rng.randint(1, 9); k = n if rng.random() < 0.12 else rng.randint(1, max(1, n - 1))
+        p = _tprob(rng, n=n, k=k, nobj=rng.choice([1, 2, 2, 3]), nineq=0, neq=0, symmetric=True, ties=rng.random() < 0.4)
         cases.append({"kind": "op_hcAB", "which": rng.choice(["A", "B"]), "prob": p, "x": rng.sample(p["cand"], k),
                       "nhcstep": rng.choice([None, None, 1, rng.randint(1, 2 * k + 1)]), "seed": rng.randint(0, 10 ** 6)})
     # --- pymoo-driven optimisers: result monitor
@@ -183,7 +193,7 @@ def gen_cases(rng, tier):
             if r == 1 and not memetic:                # one inequality and one equality constraint with different values
                 p["C"] = [[rng.randint(0, 3) for _ in range(p["M"])]]; p["cap"] = [3 * k]; p["iwt"] = [1]
                 p["D"] = [[0] * p["M"]]; p["tgt"] = [0]; p["ewt"] = [1]
-            if r == 0 and not memetic:                # certainly infeasible problem
+            if r == 0:                                # certainly infeasible problem (no member of any population is feasible)
                 p["C"] = [[1] * p["M"]]; p["cap"] = [k - 1]; p["iwt"] = [1]
             c = {"kind": "ga", "algo": algo, "ngen": rng.choice([1, 2, 3, 6]), "pop": rng.choice([1, 2, 4, 8, 12]),
                  "seed": rng.randint(0, 10 ** 6), "prob": p}
@@ -193,12 +203,17 @@ def gen_cases(rng, tier):
                 if rng.random() < 0.5: c["pop"] = rng.choice([1, 3, 6, 10])
                 else: c["nrefpts"] = rng.choice([1, 3, 6, 10])
             if memetic and rng.random() < 0.5: c["phc"] = rng.choice([0.0, 0.5, 1.0])
+            if r == 2 or rng.random() < 0.1: c["elementwise"] = False     # vectorised branch of Problem._evaluate
+            if memetic and r == 3:                    # the whole candidate set is selected and every individual is hill-climbed
+                p["k"] = len(p["cand"]); p["cap"] = [3 * p["k"] + 2 for _ in p["cap"]]; c["phc"] = 1.0
             cases.append(c)
     for algo, typ in LIN_GA.items():
         for r in range(reps):
             nobj = 1 if algo in SINGLE else rng.choice([2, 2, 3])
-            cases.append({"kind": "ga", "algo": algo, "ngen": rng.choice([1, 2, 3, 6]), "pop": rng.choice([1, 2, 4, 8, 12]),
-                          "seed": rng.randint(0, 10 ** 6), "lp": _lprob(rng, typ, nobj, infeasible=(r == 0), nineq=(1 if r == 0 else None))})
+            c = {"kind": "ga", "algo": algo, "ngen": rng.choice([1, 2, 3, 6]), "pop": rng.choice([1, 2, 4, 8, 12]),
+                 "seed": rng.randint(0, 10 ** 6), "lp": _lprob(rng, typ, nobj, infeasible=(r == 0), nineq=(1 if r == 0 else None))}
+            if r == 2 or rng.random() < 0.1: c["elementwise"] = False
+            cases.append(c)
     return cases
 
 # ------------------------------------------------------------------------------------------------ pure-python evaluation (predicate side)
@@ -227,7 +242,7 @@ def _lin_eval(lp, x):
 class _CallLimit(RuntimeError):
     pass
 
-def _mk_subset_problem(p):
+def _mk_subset_problem(p, elementwise=True):
     from pybrops.opt.prob.SubsetProblem import SubsetProblem
     class TabSubset(SubsetProblem):
         def __init__(self, spec, **kw):
@@ -257,9 +272,10 @@ def _mk_subset_problem(p):
     M = p["M"]
     return TabSubset(p, ndecn=p["k"], decn_space=numpy.array(p["cand"], dtype=int), decn_space_lower=0, decn_space_upper=M - 1,
                      nobj=len(p["W"]), obj_wt=numpy.array(p["owt"], dtype=float), nineqcv=len(p["C"]),
-                     ineqcv_wt=numpy.array(p["iwt"], dtype=float), neqcv=len(p["D"]), eqcv_wt=numpy.array(p["ewt"], dtype=float))
+                     ineqcv_wt=numpy.array(p["iwt"], dtype=float), neqcv=len(p["D"]), eqcv_wt=numpy.array(p["ewt"], dtype=float),
+                     elementwise=elementwise)
 
-def _mk_lin_problem(lp):
+def _mk_lin_problem(lp, elementwise=True):
     from pybrops.opt.prob.RealProblem import RealProblem
     from pybrops.opt.prob.IntegerProblem import IntegerProblem
     from pybrops.opt.prob.BinaryProblem import BinaryProblem
@@ -283,7 +299,7 @@ def _mk_lin_problem(lp):
     lo = numpy.array(lp["lo"], dtype=dt); hi = numpy.array(lp["hi"], dtype=dt)
     return Lin(lp, ndecn=len(lp["lo"]), decn_space=numpy.stack([lo, hi]), decn_space_lower=lo, decn_space_upper=hi,
                nobj=len(lp["A"]), obj_wt=numpy.array(lp["owt"], dtype=float), nineqcv=len(lp["C"]),
-               ineqcv_wt=numpy.array(lp["iwt"], dtype=float), neqcv=0)
+               ineqcv_wt=numpy.array(lp["iwt"], dtype=float), neqcv=0, elementwise=elementwise)
 
 def _canon(v, depth=0):
     if isinstance(v, numpy.ndarray): return ["nd", str(v.dtype), list(v.shape), v.tolist()]
@@ -455,7 +471,7 @@ def run_impl(case):
         with _patched_random(s):
             res = op.hillclimb(prob, x)
         res = numpy.asarray(res)
-        return {"out": res.tolist(), "dtype": str(res.dtype), "log": s.log, "x_unchanged": bool(numpy.array_equal(x, x0)),
+        return {"out": res.tolist(), "dtype": str(res.dtype), "log": s.log, "calls": list(prob.calls), "x_unchanged": bool(numpy.array_equal(x, x0)),
                 "unchanged": _snap(prob) == before, "setspace_unchanged": setspace.tolist() == p["cand"]}
     if kind == "ga":
         import importlib
@@ -466,7 +482,8 @@ def run_impl(case):
             mod = importlib.import_module("pybrops.opt.algo." + algo_name)
         cls = getattr(mod, algo_name)
         subset = "prob" in case
-        prob = _mk_subset_problem(case["prob"]) if subset else _mk_lin_problem(case["lp"])
+        ew = case.get("elementwise", True)
+        prob = _mk_subset_problem(case["prob"], ew) if subset else _mk_lin_problem(case["lp"], ew)
         before = _snap(prob)
         kw = {k: case[k] for k in ("phc", "nrefpts") if k in case}
         algo = cls(ngen=case["ngen"], pop_size=case["pop"], **kw)
@@ -528,7 +545,7 @@ def _evalT(out, i):
 def emit_case(case, out):
     kind = case["kind"]
     if "exc" in out:
-        return "false" if kind != "ga" else None          # ga: handled by the predicate (known finding for infeasible problems)
+        return "false"                                    # no modelled operation / optimiser run is allowed to raise
     zl = lambda xs: E.lst(xs, E.z)
     zll = lambda xss: E.lst2(xss, E.z)
     if kind in ("sort", "sd", "ssd"):
@@ -617,6 +634,12 @@ def emit_case(case, out):
         p = case["prob"]; x = case["x"]; k = len(x); na = len(p["cand"]) - k
         nh = k if case["nhcstep"] is None else case["nhcstep"]
         log = list(out["log"])
+        if out["dtype"] != "int64": return "false"
+        hc = "mutA_hillclimb" if case["which"] == "A" else "mutB_hillclimb"
+        hd = "let ev := tp_eval %s in let ss := %s in let x := %s in " % (_tp(p), zl(p["cand"]), zl(x))
+        if na == 0:                                         # whole candidate set selected: no draw, one evaluation, x returned
+            if log: return "false"
+            return ("(" + hd + "zl_eqb (%s ev ss x [] [] 0) %s && zll_eqb (mutAB_calls ss x [] []) %s)" % (hc, zl(out["out"]), zll(out["calls"])))
         def tiles(a):
             ix = []
             for t in range(nh // a + 1):
@@ -627,9 +650,15 @@ def emit_case(case, out):
                 ix += l["ix"]
             return ix
         lociix = tiles(k); alleleix = tiles(na)
-        if len(log) != 1 or log[0]["fn"] != "choice" or out["dtype"] != "int64": return "false"
-        return ("(let ss := %s in let x := %s in let li := %s in let ai := %s in tiled_ok %d %d li && tiled_ok (length (complement ss x)) %d ai "
-                "&& zl_eqb (mutAB_hillclimb ss x li ai) %s)" % (zl(p["cand"]), zl(x), E.lst(lociix, E.nat), E.lst(alleleix, E.nat), k, nh, nh, zl(out["out"])))
+        if len(log) != 1 or log[0]["fn"] != "choice" or log[0]["size"] is not None: return "false"
+        last = log[0]; draw = last["ix"][0]
+        if case["which"] == "A":                            # np.random.choice(len(front))
+            pool = "Nat.eqb (mutA_choice_n ev ss x li ai) %d" % last["n"]
+        else:                                               # np.random.choice(minix): one entry per objective
+            pool = E.b(last["n"] == len(p["W"]))
+        return ("(" + hd + "let li := %s in let ai := %s in tiled_ok %d %d li && tiled_ok (length (complement ss x)) %d ai\n  "
+                "&& zll_eqb (mutAB_calls ss x li ai) %s && %s\n  && zl_eqb (%s ev ss x li ai %d) %s)"
+                % (E.lst(lociix, E.nat), E.lst(alleleix, E.nat), k, nh, nh, zll(out["calls"]), pool, hc, draw, zl(out["out"])))
     if kind == "op_round":
         if out["res"] is None or out["dtype"] != case["dtype"] or out["shape"] != case["shape"] or not out["called_super"]: return "false"
         return "zl_eqb (int_round %s) %s" % (E.lst([Fraction(v) for v in case["vals"]], E.q), zl(out["res"]))
@@ -817,28 +846,8 @@ def pred(case, out):
     return seen[:8]
 
 def classify(case, out, clauses):
-    if case["kind"] == "ga" and "exc" in out:
-        m = out.get("msg", "")
-        single = case["algo"] in SINGLE
-        if ((single and out["exc"] == "ValueError" and "'soln' must have dimension equal to 2" in m) or
-                (not single and out["exc"] == "TypeError" and "'NoneType' has no len()" in m)):
-            pm = out.get("pymoo") or {}
-            nc = (len(case["prob"]["C"]) + len(case["prob"]["D"])) if "prob" in case else len(case["lp"]["C"])
-            if pm.get("resX_none") is True and nc > 0 and pm.get("pop_min_cv") is not None and pm["pop_min_cv"] > 0:
-                return "C06-ga-no-feasible-member-raises"
-    if (case["kind"] == "ga" and case["algo"] in ("NSGA2MutatorASubsetGeneticAlgorithm", "NSGA2MutatorBSubsetGeneticAlgorithm")
-            and "exc" not in out and 2 * case["prob"]["k"] > len(case["prob"]["cand"]) and case.get("phc", 0.1) > 0
-            and clauses and all("repeats a member" in c for c in clauses)):
-        return "C06-mutatorAB-duplicate-members"
-    if case["kind"] == "op_hcAB" and "exc" not in out and clauses and all("repeats a member" in c for c in clauses):
-        k = len(case["x"]); nh = k if case["nhcstep"] is None else case["nhcstep"]
-        if nh > len(case["prob"]["cand"]) - k:
-            return "C06-mutatorAB-duplicate-members"
-    if (case["kind"] == "ga" and case["algo"] in MEMETIC[1:] and "exc" in out and case["prob"]["k"] == len(case["prob"]["cand"])
-            and "resX_none" not in (out.get("pymoo") or {})):
-        if ((case["algo"] == MEMETIC[1] and out["exc"] == "ValueError" and "a must be greater than 0" in out.get("msg", "")) or
-                (case["algo"] in MEMETIC[2:] and out["exc"] == "ZeroDivisionError")):
-            return "C06-memetic-full-set-raises"
+    # every finding of this property has been repaired in the library (known_findings.d/C06.json: all "fixed"):
+    # no failure pattern is excused
     return None
 
 def nontrivial(case, out):
@@ -872,6 +881,14 @@ def describe(case, out):
     if kind == "ga":
         d["algo"] = case["algo"]; d["ngen"] = case["ngen"]; d["pop"] = case["pop"]
         if "exc" not in out: d["nsoln"] = min(out["nsoln"], 5)
+    if kind == "op_hcAB":
+        k = len(case["x"]); na = len(case["prob"]["cand"]) - k; nh = k if case["nhcstep"] is None else case["nhcstep"]
+        d["which"] = case["which"]; d["nobj"] = len(case["prob"]["W"])
+        d["pool"] = "k=n" if na == 0 else ("nhcstep>unused" if nh > na else "nhcstep<=unused")
+    if kind == "ga":
+        d["elementwise"] = case.get("elementwise", True)
+        if "exc" not in out and out.get("ineq"):
+            d["returned_infeasible"] = any(float.fromhex(h) > 0 for r in out["ineq"] for h in r)
     if kind == "op_cx" and "exc" not in out:
         d["exchanges"] = min(4, max([l["size"] or 0 for l in out["log"] if l["fn"] == "choice"] or [0]))
     return d
